@@ -67,6 +67,15 @@ def oracle_C16(results, metas, st):
     out = []
     for r in results:
         c = r['case']
+        if c[2] == 'subcalls' and isinstance(r['model'], list) and len(r['model']) == 3:
+            # the translated share expressions of mpi_plain / mpi_vegas / mpi_multi_channel against the specification
+            total, rank, world = c[3]
+            want = total // world + (1 if rank < total % world else 0)
+            for name, got in zip(('mpi_plain', 'mpi_vegas', 'mpi_multi_channel'), r['model']):
+                if got != want:
+                    out.append(viol('the share expression of %s (translated from the header) gives rank %d of %d a share of %d of %d calls; a balanced contiguous split gives %d' %
+                                    (name, rank, world, got, total, want), [c], 'witness evaluated on the translated definition (the driver cannot be run with that many calls)'))
+                    break
         if c[2] != 'split' or not isinstance(r['cxx'], list) or len(r['cxx']) != 2:
             continue
         total, sub, rank, world = c[3]
